@@ -420,7 +420,11 @@ func (ev *Env) call(e *ECall) Value {
 		lo, hi := ev.evalI(e.Args[1]), ev.evalI(e.Args[2])
 		*ev.nq++
 		qv := fmt.Sprintf("%s?%d", id.Name, *ev.nq)
-		body := ev.bind(id.Name, IntV(qv, tInt)).evalB(e.Args[3])
+		fx.enc.quiet++
+		body := func() Term {
+			defer func() { fx.enc.quiet-- }()
+			return ev.bind(id.Name, IntV(qv, tInt)).evalB(e.Args[3])
+		}()
 		rng := And(Le(lo, qv), Lt(qv, hi))
 		if e.Fun == "forall" {
 			return BoolV(Forall(qv, Implies(rng, body)))
@@ -458,12 +462,12 @@ func (ev *Env) call(e *ECall) Value {
 		argn(0)
 		return BoolV(Eq(fx.heapOf(ev.cur, "M.uint8"), fx.heapOf(ev.old, "M.uint8")))
 	case "sameBytesExcept":
-		// byte memory unchanged outside addresses [lo,hi)
+		// byte memory that existed at the old state is unchanged outside addresses [lo,hi)
 		argn(2)
 		lo, hi := ev.evalI(e.Args[0]), ev.evalI(e.Args[1])
 		*ev.nq++
 		qv := fmt.Sprintf("k?%d", *ev.nq)
-		return BoolV(Forall(qv, Implies(Or(Lt(qv, lo), Ge(qv, hi)),
+		return BoolV(Forall(qv, Implies(And(Lt(qv, fx.brkOf(ev.old)), Or(Lt(qv, lo), Ge(qv, hi))),
 			Eq(Select(fx.heapOf(ev.cur, "M.uint8"), qv), Select(fx.heapOf(ev.old, "M.uint8"), qv)))))
 	case "mem":
 		argn(1)
